@@ -1542,6 +1542,13 @@ class Engine:
                 return fn.fn(*args, **kwargs)
             except SymbolicBoolUsed as e:
                 raise Unsupported(f'{fn.name}: {e} (line {lineno})')
+            except (ValueError, IndexError) as e:
+                # shape / axis errors of the array kernel behind a torch operation: torch refuses such operands with a RuntimeError (IndexError)
+                if (fn.name.startswith('torch.') or fn.name.startswith('Tensor.')) and type(e).__module__.startswith('numpy') or \
+                        ((fn.name.startswith('torch.') or fn.name.startswith('Tensor.')) and type(e) in (ValueError, IndexError)
+                         and ('dimension' in str(e) or 'axis' in str(e) or 'shape' in str(e) or 'broadcast' in str(e))):
+                    raise PyExc('IndexError' if isinstance(e, IndexError) and 'axis' not in str(e) else 'RuntimeError', f'{fn.name}: {e}', lineno)
+                raise
         if isinstance(fn, ClassVal):
             return self.instantiate(fn, args, kwargs, cx, lineno)
         if isinstance(fn, ExcClass):
